@@ -326,8 +326,18 @@ package core
 //@   ensures [only-shrinks] forall u *btree.BTree, x *regionItem :: {bthas[u][x]} bthas[u][x] ==> old(bthas[u][x])
 //@   ensures btlen[r.tree.tree] == old(btlen[r.tree.tree])
 //@   modifies all regionTree.totalSize, ghost bthas, ghost btlen
+// updateSubTreeStat (same range, same peers: only sizes change): the size delta of a voter goes to the leader tree of
+// its store if it is the leader and to the follower tree of its store otherwise, that of a learner to the learner tree
+// of its store, that of a pending peer to the pending tree of its store - and to no other tree.
+//@ pure subNonNil(r *RegionsInfo) = (forall s uint64 :: {in(r.leaders, s)} in(r.leaders, s) ==> r.leaders[s] != nil) && (forall s uint64 :: {in(r.followers, s)} in(r.followers, s) ==> r.followers[s] != nil) && (forall s uint64 :: {in(r.learners, s)} in(r.learners, s) ==> r.learners[s] != nil) && (forall s uint64 :: {in(r.pendingPeers, s)} in(r.pendingPeers, s) ==> r.pendingPeers[s] != nil)
 //@ func (*RegionsInfo).updateSubTreeStat
-//@   assumed
+//@   props C07
+//@   requires subNonNil(r)
+//@   requires r != nil && origin != nil && region != nil
+//@   at updateStat 1 assert [leader-delta-to-the-leader-tree-of-its-store] recv == r.leaders[pstore(peer)] && pid(peer) == pid(region.leader)
+//@   at updateStat 2 assert [follower-delta-to-the-follower-tree-of-its-store] recv == r.followers[pstore(peer)] && pid(peer) != pid(region.leader)
+//@   at updateStat 3 assert [learner-delta-to-the-learner-tree-of-its-store] recv == r.learners[pstore(peer)]
+//@   at updateStat 4 assert [pending-delta-to-the-pending-tree-of-its-store] recv == r.pendingPeers[pstore(peer)]
 //@   modifies all regionTree.totalSize
 //@ opaque (*RegionsInfo).shouldRemoveFromSubTree
 
